@@ -37,6 +37,10 @@ class Ctx:
                           native_replays=0, diff_cases=0)
         s.findings = load_findings()
         s.repo_rev = repo_rev()
+        # wall-clock budget of the whole check: rows that do not fit are skipped and listed in the evidence (never claimed)
+        s.budget_s = float(os.environ.get('VERIF_BUDGET_S', '840' if tier == 'quick' else '3300'))
+        s.deadline = s.t0 + s.budget_s
+        s.skipped = []
 
     def quick(s): return s.tier == 'quick'
 
@@ -104,7 +108,7 @@ class Ctx:
             states=max(1, c['paths'] + c['cbmc_props']),
             transitions=max(1, c['instr'] + c['cbmc_props']),
             traces_validated_against_impl=c['native_replays'] + c['diff_cases'],
-            exhaustive=bool(exhaustive) and not s.inconclusive,
+            exhaustive=bool(exhaustive) and not s.inconclusive and not getattr(s, 'skipped', []),
             explanation=level_text,
             functions_encoded=sorted(s.functions)[:400],
             bounds=s.bounds,
@@ -114,7 +118,7 @@ class Ctx:
             solver_calls=c['solver_calls'], solver_seconds=round(c['solver_s'], 2), assertions_proved=c['proved'],
             cbmc_runs=c['cbmc_runs'], cbmc_properties_checked=c['cbmc_props'], cbmc_seconds=round(c['cbmc_s'], 2),
             differential_cases=c['diff_cases'], native_replays=c['native_replays'],
-            known_findings_hit=s.known_hits, inconclusive=s.inconclusive,
+            known_findings_hit=s.known_hits, inconclusive=s.inconclusive, rows_skipped_for_budget=getattr(s, 'skipped', []), budget_s=s.budget_s,
             repo_rev=s.repo_rev,
         )
         if extra_cov: cov.update(extra_cov)
